@@ -42,6 +42,8 @@ package sonic
 //@   requires a.readReactor.b == b && a.readReactor.readAll == readAll
 //@   assert call io.Reader.Read: alias(arg1, b[readBytes:])
 //@   assert call cb: old(readBytes) <= arg1 && arg1 <= len(b) && (arg0 == nil && readAll ==> arg1 == len(b))
+//@   remember after call io.Reader.Read: moved = result1 == nil
+//@   assert call cb: [C02 no-swallowed-error] arg0 == nil ==> moved
 //@   consumes cb unless aArmedR(a)
 //@   ensures [armed] invoked(cb) == 0 ==> a.slot.Handlers[0] == a.readReactor.onRead &&
 //@           readBytes <= a.readReactor.readSoFar && a.readReactor.readSoFar <= len(b) &&
@@ -87,6 +89,8 @@ package sonic
 //@   requires a.writeReactor.b == b && a.writeReactor.writeAll == writeAll
 //@   assert call io.Writer.Write: alias(arg1, b[writtenBytes:])
 //@   assert call cb: old(writtenBytes) <= arg1 && arg1 <= len(b) && (arg0 == nil && writeAll ==> arg1 == len(b))
+//@   remember after call io.Writer.Write: moved = result1 == nil
+//@   assert call cb: [C02 no-swallowed-error] arg0 == nil ==> moved
 //@   consumes cb unless aArmedW(a)
 //@   ensures [armed] invoked(cb) == 0 ==> a.slot.Handlers[1] == a.writeReactor.onWrite &&
 //@           writtenBytes <= a.writeReactor.wroteSoFar && a.writeReactor.wroteSoFar <= len(b) &&
